@@ -1,4 +1,5 @@
 import VtModel.Decoders
+import VtProofs.JsonTotal
 /-!
 # C19 — decoders report malformed input as an error and never bring the process down
 
@@ -21,9 +22,9 @@ What is proved here, for **all** inputs, about the executable models
   (`old_format_error_panics`, `old_hex_panics`, `old_readBytes_allocates_announced_length`,
   `old_subReader_overflow_panics`, `old_readRange_overflow_panics`,
   `old_readRangeFile_allocates_announced_length`, `old_csv_panics`, `old_csv_empty_panics`);
-* NOT proved: "recursion depth ≤ nesting depth" for the JSON parser. The model recurses on fuel
-  (`2·|input| + 4`), so its recursion depth is trivially ≤ that, but a depth-instrumented copy of the
-  five mutually recursive functions with a refinement proof was not completed. The direct oracle
+* JSON recursion: the model recurses on fuel `2·|input| + 4`, and `json_total` (from
+  `VtProofs.Json.total_aux`) shows that this fuel is never exhausted, so the recursion depth of the
+  model is ≤ 2·|input| + 4 for every input. NOT proved: the sharper "≤ nesting depth of the input". The direct oracle
   covers it: nesting 512 (quick) / 5000 (thorough) of arrays, objects and mixed values in a child
   process (measured: the real parser overflows an 8 MiB stack at ≈ 15 000–20 000 nested objects, i.e.
   beyond "moderate"). VPL: `parse_vpl` rejects nesting > 64 since be686a0f (it aborted at ≈ 5000).
@@ -793,183 +794,23 @@ example : csvRows false 0x2c [0x22, 0x61, 0x22, 0x62] = .err := by decide
 section JsonNP
 open VtModel.Json
 
-def NPR {α : Type} (r : Res α) : Prop := ∀ s, r ≠ .panic s
-theorem NPR_ok {α : Type} (a : α) : NPR (Res.ok a) := by intro s; simp
-theorem NPR_err {α : Type} : NPR (Res.err : Res α) := by intro s; simp
-theorem NPR_fuel {α : Type} : NPR (Res.fuel : Res α) := by intro s; simp
-theorem NPR_formatError {α : Type} (it : Iter) : NPR (formatError it : Res α) := NPR_err
-theorem NPR_bind {α β : Type} {x : Res α} {f : α → Res β} (hx : NPR x) (hf : ∀ a, NPR (f a)) : NPR (x.bind f) := by
-  cases x with
-  | ok a => exact hf a
-  | err => exact NPR_err
-  | fuel => exact NPR_fuel
-  | panic s => exact absurd rfl (hx s)
-theorem NPR_map {α β : Type} {x : Res α} (f : α → β) (hx : NPR x) : NPR (x.map f) := by
-  cases x with
-  | ok a => exact NPR_ok _
-  | err => exact NPR_err
-  | fuel => exact NPR_fuel
-  | panic s => exact absurd rfl (hx s)
+/-- **JSON**: `parse_json_str` on arbitrary bytes never panics (since a22a8569).  The proof lives in
+    `VtProofs/JsonTotal.lean` (w-json): one induction over the five mutually recursive parser
+    functions that shows at the same time that the fuel `2·|input|+4` is never exhausted. -/
+theorem json_no_panic {N : Type} (ops : NumOps N) (input : Json.Bytes) (s : String) : parseBytes ops input ≠ .panic s :=
+  VtProofs.Json.parseBytes_no_panic ops input s
 
-theorem NPR_expectNext (it : Iter) : NPR (expectNext it) := by
-  unfold expectNext; split
-  · exact NPR_formatError _
-  · exact NPR_ok _
-
-theorem NPR_parseTagGo (dbg : Bool) (tag pre rest : Json.Bytes) : NPR (parseTagGo dbg tag pre rest) := by
-  fun_induction parseTagGo dbg tag pre rest
-  · exact NPR_ok _
-  · exact NPR_formatError _
-  · assumption
-  · exact NPR_formatError _
-
-theorem NPR_parseTag (it : Iter) (tag : Json.Bytes) : NPR (parseTag it tag) := NPR_parseTagGo _ _ _ _
-
-theorem NPR_strLoop (dbg : Bool) (rest pre acc : Json.Bytes) : NPR (strLoop dbg rest pre acc) := by
-  fun_induction strLoop dbg rest pre acc <;> first | exact NPR_formatError _ | exact NPR_ok _ | assumption
-
-theorem NPR_parseQuotedString (it : Iter) : NPR (parseQuotedString it) := by
-  unfold parseQuotedString
-  apply NPR_bind (NPR_expectNext _)
-  intro ⟨b, it1⟩
-  dsimp only
-  split
-  · exact NPR_formatError _
-  · apply NPR_bind (NPR_strLoop _ _ _ _)
-    intro ⟨raw, it2⟩
-    dsimp only
-    split
-    · exact NPR_err
-    · exact NPR_ok _
-
-theorem NPR_lexNumber (it : Iter) : NPR (lexNumber it) := by
-  unfold lexNumber
-  dsimp only
-  split
-  · exact NPR_formatError _
-  · apply NPR_bind
-    · split
-      · split
-        · (try dsimp only); split
-          · exact NPR_formatError _
-          · exact NPR_ok _
-        · exact NPR_ok _
-      · exact NPR_ok _
-    · intro ⟨fr, it4⟩
-      dsimp only
-      apply NPR_bind
-      · split
-        · split
-          · (try dsimp only); split
-            · exact NPR_formatError _
-            · exact NPR_ok _
-          · exact NPR_ok _
-        · exact NPR_ok _
-      · intro ⟨ex, it7⟩
-        exact NPR_ok _
-
-theorem NPR_parseNumber {N : Type} (ops : NumOps N) (it : Iter) : NPR (parseNumber ops it) := by
-  unfold parseNumber
-  apply NPR_bind (NPR_lexNumber _)
-  intro ⟨lx, it1⟩
-  dsimp only
-  split
-  · exact NPR_formatError _
-  · exact NPR_ok _
-theorem NPR_all {N : Type} (ops : NumOps N) : ∀ (f : Nat),
-    (∀ it, NPR (parseValue ops f it)) ∧ (∀ it, NPR (parseArray ops f it)) ∧
-    (∀ it acc, NPR (parseArrayRest ops f it acc)) ∧ (∀ it, NPR (parseObject ops f it)) ∧
-    (∀ it acc, NPR (parseObjectLoop ops f it acc)) := by
-  intro f
-  induction f with
-  | zero =>
-    refine ⟨?_, ?_, ?_, ?_, ?_⟩ <;> intros <;> simp only [parseValue, parseArray, parseArrayRest, parseObject, parseObjectLoop] <;> exact NPR_fuel
-  | succ n ih =>
-    obtain ⟨hv, ha, har, ho, hol⟩ := ih
-    refine ⟨?_, ?_, ?_, ?_, ?_⟩
-    · intro it
-      simp only [parseValue]
-      split
-      · exact NPR_formatError _
-      · split
-        · exact ha _
-        · split
-          · exact ho _
-          · split
-            · exact NPR_map _ (NPR_parseQuotedString _)
-            · split
-              · exact NPR_map _ (NPR_parseNumber _ _)
-              · split
-                · exact NPR_map _ (NPR_parseTag _ _)
-                · split
-                  · exact NPR_map _ (NPR_parseTag _ _)
-                  · split
-                    · exact NPR_map _ (NPR_parseTag _ _)
-                    · exact NPR_formatError _
-    · intro it
-      simp only [parseArray]
-      apply NPR_bind (NPR_expectNext _)
-      intro ⟨b, it1⟩
-      dsimp only
-      split
-      · exact NPR_formatError _
-      · split
-        · exact NPR_ok _
-        · apply NPR_bind (hv _)
-          intro ⟨v, it3⟩
-          exact NPR_map _ (har _ _)
-    · intro it acc
-      simp only [parseArrayRest]
-      apply NPR_bind (NPR_expectNext _)
-      intro ⟨b, it1⟩
-      dsimp only
-      split
-      · exact NPR_ok _
-      · split
-        · apply NPR_bind (hv _)
-          intro ⟨v, it3⟩
-          exact har _ _
-        · exact NPR_formatError _
-    · intro it
-      simp only [parseObject]
-      apply NPR_bind (NPR_expectNext _)
-      intro ⟨b, it1⟩
-      dsimp only
-      split
-      · exact NPR_formatError _
-      · exact NPR_map _ (hol _ _)
-    · intro it acc
-      simp only [parseObjectLoop]
-      split
-      · exact NPR_formatError _
-      · split
-        · exact NPR_ok _
-        · split
-          · apply NPR_bind (NPR_parseQuotedString _)
-            intro ⟨k, it1⟩
-            dsimp only
-            apply NPR_bind (NPR_expectNext _)
-            intro ⟨c, it3⟩
-            dsimp only
-            split
-            · exact NPR_formatError _
-            · apply NPR_bind (hv _)
-              intro ⟨v, it5⟩
-              dsimp only
-              apply NPR_bind (NPR_expectNext _)
-              intro ⟨d, it7⟩
-              dsimp only
-              split
-              · exact hol _ _
-              · split
-                · exact NPR_ok _
-                · exact NPR_formatError _
-          · exact NPR_formatError _
-
-/-- **JSON**: `parse_json_str` on arbitrary bytes never panics (since a22a8569) -/
-theorem json_no_panic {N : Type} (ops : NumOps N) (input : Json.Bytes) (s : String) : parseBytes ops input ≠ .panic s := by
-  unfold parseBytes
-  exact NPR_map _ ((NPR_all ops _).1 _) s
+/-- the model never runs out of fuel: for every byte string the parser ends with a value or an error,
+    i.e. the model's recursion depth is ≤ 2·|input|+4 -/
+theorem json_total {N : Type} (ops : NumOps N) (input : Json.Bytes) :
+    (∃ v, parseBytes ops input = .ok v) ∨ parseBytes ops input = .err := by
+  have h1 := VtProofs.Json.parseBytes_total ops input
+  have h2 := VtProofs.Json.parseBytes_no_panic ops input
+  cases h : parseBytes ops input with
+  | ok v => exact Or.inl ⟨v, rfl⟩
+  | err => exact Or.inr rfl
+  | fuel => exact absurd h h1
+  | panic s => exact absurd h (h2 s)
 
 /-- `JsonValue::parse_blob` on arbitrary bytes (UTF-8 check, then the parser) never panics (since 1a451fab) -/
 theorem jsonBlob_no_panic (input : Json.Bytes) (s : String) : jsonBlob input ≠ .panic s := by
@@ -978,7 +819,14 @@ theorem jsonBlob_no_panic (input : Json.Bytes) (s : String) : jsonBlob input ≠
   · simp
   · exact json_no_panic _ _ s
 
-/-- non-vacuity: the parser accepts documents (`[1]`) and rejects others (`[1`) -/
+/-- … and always ends with a value or an error -/
+theorem jsonBlob_total (input : Json.Bytes) : (∃ v, jsonBlob input = .ok v) ∨ jsonBlob input = .err := by
+  unfold jsonBlob
+  split
+  · exact Or.inr rfl
+  · exact json_total _ _
+
+/-- non-vacuity: the parser accepts documents (`[]`) -/
 example : verdictR (jsonBlob [0x5b, 0x5d]) = "ok" := by decide
 end JsonNP
 
